@@ -181,6 +181,7 @@ contract(SR + '._verify', types={'self': "Inst('%s')" % AR_},
          returns="Opt(Inst('%s'))" % AR_,
          lets={'dest': 'self.response.destination', 'rx': 'self.valid_destination_regex', 'ii': 'self.response.issue_instant'},
          ensures=[('self-or-none', 'result is None or result == self'),
+                  ('response-present', 'implies(result is not None, self.response is not None)'),
                   ('C06-version', "implies(result is not None, self.response.version == '2.0')"),
                   ('C06-status', 'implies(result is not None, truthy(%s) and %s == %s)' % (_ST, _TOP, _SUCCESS)),
                   ('C04-issue-instant', 'implies(result is not None, epoch(ii) - NOW <= 86400 + self.timeslack '
@@ -406,6 +407,7 @@ contract(AR_ + '.parse_assertion', types={'keys': 'Any'}, returns='Bool',
 
 contract(AR_ + '.verify', types={'keys': 'Any'}, returns="Opt(Inst('%s'))" % AR_,
          ensures=[('self-or-none', 'result is None or result == self'),
+                  ('response-present', 'implies(result is not None, self.response is not None and self.response == old(self.response))'),
                   ('C06-success-and-version', "implies(result is not None, self.response.version == '2.0' and truthy(self.response.status) "
                                               "and self.response.status.status_code.value == %s)" % _SUCCESS),
                   ('C02-every-kept-assertion-was-checked',
@@ -419,3 +421,31 @@ contract(AR_ + '.verify', types={'keys': 'Any'}, returns="Opt(Inst('%s'))" % AR_
                    '*.subject_confirmation', 'lists', 'dicts'],
          clauses_from={'C02': ['C02-every-kept-assertion-was-checked'], 'C06': ['C06-success-and-version'],
                        'C17': ['C02-every-kept-assertion-was-checked']})
+
+
+# ================================================================================================ C17: decrypted assertions
+EA = "List(Inst('saml2_tophat.saml:EncryptedAssertion'))"
+contract('saml2_tophat:extension_elements_to_elements', trusted=True, params=['extension_elements', 'schemas'],
+         returns="List(Inst('saml2_tophat.saml:Assertion'))",
+         ensures=['fresh(result)', 'forall(lambda j: typed(result[j], "Inst(\'saml2_tophat.saml:Assertion\')"), 0, len(result))'],
+         assumptions=['E-PARSE'],
+         note='ASSUMED: the typed elements found among the extension elements (for an EncryptedAssertion: the decrypted assertions)')
+contract(AR_ + '.decrypt_assertions',
+         types={'encrypted_assertions': EA, 'decr_txt': 'Union(Str, Bytes)', 'issuer': "Opt(Inst('saml2_tophat.saml:Issuer'))", 'verified': 'Bool'},
+         returns="List(Inst('saml2_tophat.saml:Assertion'))", local_types={'res': "List(Inst('saml2_tophat.saml:Assertion'))"},
+         ensures=[# C17: every decrypted assertion that carries a signature had it verified against the decrypted text -- unless the
+                  # caller states it was verified before
+                  ('C17-decrypted-signatures-verified',
+                   'forall(lambda k: implies(truthy(result[k].signature) and not truthy(verified) and truthy(result[k].id), '
+                   'SIG_OK(self.sec, decr_txt, result[k], cname(result[k]), issuer)), 0, len(result))')],
+         raises={'SignatureError': 'True', 'SigverError': 'True', 'Exception': 'True'},
+         modifies=[],
+         loops={0: {'inv': ['forall(lambda k: implies(truthy(res[k].signature) and not truthy(verified) and truthy(res[k].id), '
+                            'SIG_OK(self.sec, decr_txt, res[k], cname(res[k]), issuer)), 0, len(res))',
+                            'forall(lambda k: typed(res[k], "Inst(\'saml2_tophat.saml:Assertion\')"), 0, len(res))'],
+                    'modifies': ['list(res)']},
+                1: {'inv': ['forall(lambda k: implies(truthy(res[k].signature) and not truthy(verified) and truthy(res[k].id), '
+                            'SIG_OK(self.sec, decr_txt, res[k], cname(res[k]), issuer)), 0, len(res))',
+                            'forall(lambda k: typed(res[k], "Inst(\'saml2_tophat.saml:Assertion\')"), 0, len(res))'],
+                    'modifies': ['list(res)']}},
+         clauses_from={'C17': ['C17-decrypted-signatures-verified'], 'C01': ['C17-decrypted-signatures-verified']})
